@@ -229,6 +229,7 @@ func init() {
 		c.rulesC18dflt()
 		c.rulesC18flat()
 		c.rulesR3batch3("C18")
+		c.rulesR3nilfield()
 		c.rulesC04dup()
 		c.rulesC18net()
 	})
